@@ -400,7 +400,8 @@ FIXED = [b"aaaaaaa,b,c", b"aaaaaaa", b"a1,b", b"a[1-3],b", b"a[1-3,07-09],b5", b
 
 # ------------------------------------------------------------------ running
 class PrintRunner:
-    OPS = ["dump", "ptext r", "ptext d", "psweep r +2", "psweep d +2", "pback r", "pback d", "pranges s", "pranges p", "pranges n"]
+    OPS = ["dump", "ptext r", "ptext d", "psweep r +2", "psweep d +2", "pback r", "pback d", "pranges s", "pranges p", "pranges S", "pranges P",
+           "pranges n"]
     NR = len(OPS) - 1         # `pranges n` (final call skipped on a full array) or `pranges N` (always made): probe_nextrange
     EXACT = ["pexact r +2", "pexact d +2"]
 
@@ -415,9 +416,23 @@ class PrintRunner:
         self.env = self.hl.env
         self.variant = None
         self.xvariant = "unchanged"      # list_push_hostlist's retry condition; probed by the CLI part (xlist_check)
+        self.rmvariant = "unchanged"     # record bookkeeping of hostlist_shift_range / hostlist_pop_range (probe_rangemove)
 
     def margs(self):
-        return ["model", self.variant, self.xvariant]
+        return ["model", self.variant, self.xvariant, self.rmvariant]
+
+    def probe_rangemove(self):
+        """which record bookkeeping do hostlist_shift_range / hostlist_pop_range have (F14-RANGEMOVE)?  behavioural: `f[1-2]`,
+        `f[3-4]` side by side and unjoined, one call of each in a forked child under the sanitizers; repaired = one call
+        returns the whole group, leaves an empty list and nothing is reported."""
+        res = run_batch([self.exe], [["new", "prmprobe"]], env=self.env, timeout=60)
+        ans, crash = res[0]
+        v = ans[1] if crash is None and len(ans) == 2 else None
+        if v not in ("fixed", "unchanged"):
+            self.ctx.disagreement("range-move variant probe", "hl_harness gave no usable answer: %s %s" % (ans, (crash or "")[-300:]))
+            v = "unchanged"
+        self.rmvariant = v
+        return v
 
     def build(self):
         from vlib.common import REPO
